@@ -9,7 +9,14 @@
  * true length to probe psSize_t narrowing), delete / duplicate / transplant
  * subtrees, wrap in nested SEQUENCEs (depth probes), integer and string
  * special values, truncation.  Ancestor lengths are then re-encoded either
- * consistently (3/4) or left stale (1/4).
+ * consistently (3/4) or left stale (1/4).  Two moves are always consistent:
+ * "end the input right behind node i, itself shortened by 0..3 octets" (a
+ * well-formed object that stops behind a too-short primitive value: a parser
+ * that takes a fixed number of octets from a value without looking at its
+ * length reads past the exact-size input block), and "repeat a child of a
+ * constructed node 8..64 times" (long lists: RDNs of a Name, attributes of
+ * an RDN, GeneralNames, revoked entries, extensions - probes fixed-size
+ * per-object tables).
  *
  * pem_mutate(): for PEM armoured inputs decode one block's base64 body,
  * der_mutate() it and re-armour, so the DER parsers behind the PEM paths
@@ -276,6 +283,31 @@ static void m_fix_ancestors(uint8_t *b, size_t *size, size_t max, int i, long de
     }
 }
 
+/* the input now ends at `*size`, somewhere inside (or at the end of) node i: re-encode the length of
+   node i and of every ancestor so that each of them ends exactly there (innermost first: the headers
+   of the outer nodes lie before the inner ones, so their recorded offsets stay valid) */
+static void m_end_here(uint8_t *b, size_t *size, size_t max, int i)
+{
+    int a;
+    for (a = i; a >= 0; a = m_nodes[a].parent)
+    {
+        mnode_t *x = &m_nodes[a];
+        size_t xcs = (size_t) x->off + x->taglen + x->lenlen;
+        uint8_t hdr[8];
+        size_t hl, nl;
+        if (x->indef || xcs > *size)
+        {
+            continue;
+        }
+        nl = *size - xcs;
+        hl = m_enc_len(hdr, nl, 0);
+        if (m_replace(b, size, max, x->off + x->taglen, xcs, hdr, hl) < 0)
+        {
+            break;
+        }
+    }
+}
+
 static const uint8_t m_tags[] = { 0x02, 0x03, 0x04, 0x05, 0x06, 0x0c, 0x13, 0x14, 0x16, 0x17, 0x18, 0x1e, 0x30,
                                   0x31, 0xa0, 0xa1, 0xa2, 0xa3, 0x80, 0x81, 0x82, 0x86, 0x87, 0x88, 0x01, 0x0a, 0x1c, 0x1a };
 static const uint8_t m_strtags[] = { 0x0c, 0x13, 0x14, 0x16, 0x1e, 0x03, 0x1c, 0x1a };
@@ -303,7 +335,7 @@ static size_t der_mutate(uint8_t *b, size_t size, size_t max, mrng_t *r)
     tot = m_total(n);
     cs = (size_t) n->off + n->taglen + n->lenlen + n->pre;
     consistent = mb(r, 4) != 0;
-    op = mb(r, 20);
+    op = mb(r, 24);
 
     switch (op)
     {
@@ -576,27 +608,71 @@ static size_t der_mutate(uint8_t *b, size_t size, size_t max, mrng_t *r)
             return size;
         }
         /* shrink the ancestors so that they end exactly at the cut */
-        {
-            int a;
-            for (a = i; a >= 0; a = m_nodes[a].parent)
-            {
-                mnode_t *x = &m_nodes[a];
-                size_t xcs = (size_t) x->off + x->taglen + x->lenlen;
-                uint8_t hdr[8];
-                size_t hl, nl;
-                if (x->indef || xcs > size)
-                {
-                    continue;
-                }
-                nl = size - xcs;
-                hl = m_enc_len(hdr, nl, 0);
-                if (m_replace(b, &size, max, x->off + x->taglen, xcs, hdr, hl) < 0)
-                {
-                    break;
-                }
-            }
-        }
+        m_end_here(b, &size, max, i);
         return size;
+    }
+    case 20:
+    case 21:
+    {   /* end the input right behind this node after shortening its value by k = 0..3 octets; every
+           enclosing length is made consistent with the new size. Primitive nodes preferred (the end
+           of a constructed node is the end of its last leaf) */
+        unsigned t;
+        size_t k, cut;
+        for (t = 0; t < 4 && ((b[n->off] & 0x20) || n->clen == 0); t++)
+        {
+            i = (int) mb(r, (uint32_t) m_nn);
+            n = &m_nodes[i];
+        }
+        tot = m_total(n);
+        k = mb(r, 4);
+        if (k > n->clen)
+        {
+            k = n->clen;
+        }
+        cut = (size_t) n->off + tot - k;
+        if (cut < 2 || cut > size || (cut == size && k == 0) || cut < (size_t) n->off + n->taglen + n->lenlen)
+        {
+            return 0;
+        }
+        size = cut;
+        m_end_here(b, &size, max, i);
+        return size;
+    }
+    case 22:
+    case 23:
+    {   /* repeat this subtree 8..64 times behind itself; children of a constructed node that are
+           small enough to fit are preferred */
+        unsigned t, k, j;
+        for (t = 0; t < 4 && (n->parent < 0 || m_total(n) > 256 || m_total(n) < 2); t++)
+        {
+            i = (int) mb(r, (uint32_t) m_nn);
+            n = &m_nodes[i];
+        }
+        tot = m_total(n);
+        if (n->parent < 0 || tot < 2 || size >= max)
+        {
+            return 0;
+        }
+        k = 8 + mb(r, 57);
+        if ((size_t) k * tot > max - size)
+        {
+            k = (unsigned) ((max - size) / tot);
+        }
+        if (k == 0 || (size_t) k * tot > sizeof m_tmp)
+        {
+            return 0;
+        }
+        for (j = 0; j < k; j++)
+        {
+            memcpy(m_tmp + (size_t) j * tot, b + n->off, tot);
+        }
+        if (m_replace(b, &size, max, n->off + tot, n->off + tot, m_tmp, (size_t) k * tot) < 0)
+        {
+            return 0;
+        }
+        delta = (long) ((size_t) k * tot);
+        consistent = 1;
+        break;
     }
     default:
     {   /* append a copy of a random subtree at the end of this node's content (grow lists) */
